@@ -15,6 +15,7 @@ The World exposes
 import copy
 import json
 import os
+import random
 import re
 import shutil
 import subprocess
@@ -124,6 +125,8 @@ class World:
         self.cmdlog = []
         self.tid = 0
         self.faulted = False
+        self.pmap = {}           # symbolic PR index (order of opening) -> real PR id
+        self.rng_eval = random.Random(12345)
         self.init_branches = list(branches)
         self.hotfix = list(hotfix or [])
         self.tags0 = dict(tags or {})
@@ -588,7 +591,7 @@ class World:
                 cur['files'].append(line.strip())
         return new
 
-    def observe(self, ev, op=None, act=None):
+    def observe(self, ev, op=None, act=None, chk=None):
         new = self._scan_commits()
         refs = []
         for name, sha in sorted(self.refs().items()):
@@ -644,7 +647,8 @@ class World:
                                   for j in self.berte.task_queue.queue]
         rec = dict(tid=self.tid, k=self.k, ev=ev, newc=new, refs=refs, tags=tags, prs=prs,
                    builds=sorted(builds, key=lambda b: b['c']), job=job, cfg=self.cfg(),
-                   op=op or {}, act=act or {})
+                   op=op or {}, act=act or {},
+                   chk=chk or dict(kind='', dt=[], ref=[]))
         self.trace.append(rec)
         return rec
 
